@@ -231,3 +231,19 @@ func reflectIntrinsic(eng *Engine, fn *ssa.Function, name string) intrinsic {
 }
 
 var _ = fmt.Sprint
+
+// genericIntrinsic resolves intrinsics for instantiations of generic
+// functions (they are created on demand and are not package members).
+func (eng *Engine) genericIntrinsic(fn *ssa.Function) intrinsic {
+	if v, ok := eng.genIntr.Load(fn); ok {
+		in, _ := v.(intrinsic)
+		return in
+	}
+	in := reflectIntrinsic(eng, fn, fn.String())
+	if in == nil {
+		eng.genIntr.Store(fn, false)
+		return nil
+	}
+	eng.genIntr.Store(fn, in)
+	return in
+}
